@@ -692,7 +692,9 @@ Section D.
     (ok = true /\ g_err st = false /\ g_compiled st = false /\ k <> kSTART /\ k <> kEND /\
      has_node st k = false /\ handler_ok st i pre = true /\ handler_ok st o post = true /\
      st' = set_nodes st (g_nodes st ++ [(k, {| n_pass := isp; n_in := i; n_out := o;
-                                              n_pre := option_map h_ty pre; n_post := option_map h_ty post |})])).
+                                              n_pre := option_map h_ty pre; n_post := option_map h_ty post;
+                                              n_pre_ret := match pre with Some h => h_ret h | None => None end;
+                                              n_post_ret := match post with Some h => h_ret h | None => None end |})])).
   Proof.
     intros st k isp i o pre post st' ok H. unfold add_node in H.
     destruct (g_err st); [inversion H; subst; left; auto|].
